@@ -25,6 +25,7 @@
 
 #include <vector>
 #include <string>
+#include <string_view>
 #include <tuple>
 #include <type_traits>
 
@@ -193,8 +194,33 @@ protected:
   template <class Str>
   void DoWriteString(const Str& val) {
     MakeScalarIfUnset();
-    wrt_.write("\"{}\"", val);
+    wrt_.write("\"{}\"", EscapeString(val));
     ++n_written_;
+  }
+
+  /// Escape quotes, backslashes and control characters,
+  /// so that the result is a valid JSON string body.
+  static std::string EscapeString(std::string_view s) {
+    std::string result;
+    result.reserve(s.size());
+    for (unsigned char c: s) {
+      switch (c) {
+      case '"':  result += "\\\""; break;
+      case '\\': result += "\\\\"; break;
+      case '\n': result += "\\n"; break;
+      case '\r': result += "\\r"; break;
+      case '\t': result += "\\t"; break;
+      default:
+        if (c < 0x20) {
+          static const char hex[] = "0123456789abcdef";
+          result += "\\u00";
+          result += hex[c >> 4];
+          result += hex[c & 15];
+        } else
+          result += (char)c;
+      }
+    }
+    return result;
   }
 
 private:
